@@ -1,6 +1,7 @@
 """C17 - the WSGI adapter conforms to PEP 3333."""
 from __future__ import annotations
 
+import sys
 import threading
 from typing import Any, Callable, Dict, List, Optional, Tuple
 from urllib.parse import unquote_to_bytes
@@ -16,7 +17,7 @@ from ..world import World
 ID = "C17"
 SHAPES = ["list", "generator-eager", "generator-lazy", "iterator-close", "iterator-close-lazy", "raise-before-start",
           "raise-after-start", "raise-mid-iteration", "empty-chunks", "no-start", "no-start-closeable", "empty-iterable",
-          "iterable-close"]
+          "iterable-close", "exc-info-replace"]
 PATHS = [b"/", b"/a/b", b"/caf%C3%A9", b"/%E2%82%AC/x%20y", b"/a%2Fb", b"/api", b"/api/v1/items", b"/api/caf%C3%A9",
          b"/apix", b"/other"]
 ROOTS = ["", "/api", "/api/v1"]
@@ -99,6 +100,19 @@ class WSGIApp:
         if shape == "iterable-close":
             start_response(status, headers)
             return Container()
+        if shape == "exc-info-replace":
+            # PEP 3333: start_response may be called again with exc_info while no headers have been output yet
+            # (i.e. before the first chunk is produced); the stored status and headers are replaced
+            start_response(status, headers)
+
+            def replacing() -> Any:
+                try:
+                    raise ValueError("application error handled by the application")
+                except ValueError:
+                    start_response(spec["status2"], list(spec["headers2"]), sys.exc_info())
+                yield from gen(False)
+
+            return replacing()
         if shape == "list":
             start_response(status, headers)
             call.finished_iteration = True
@@ -156,7 +170,7 @@ def plan(tier: str) -> dict:
         "budget": 150 if tier == "quick" else 900,
         "cases": _cases(),
         "chunk": 20,
-        "rule": "WSGI applications of twelve shapes (list, eager and lazy generators, iterators with close(), raising "
+        "rule": "WSGI applications of fourteen shapes (list, eager and lazy generators, iterators and containers with close(), start_response called again with exc_info before the first chunk, raising "
         "before / after start_response / in mid-iteration, empty chunks, empty iterable, never calling "
         "start_response) run in real threads that hold a baton with the event loop (tape-drawn virtual delays at every "
         "thread/loop hand-over); requests over HTTP/1.1 and HTTP/2 with escaped and UTF-8 paths, root_path prefixes "
@@ -247,6 +261,9 @@ def run(tape: Tape, params: dict) -> Outcome:
             hdrs += [("Set-Cookie", "a=1"), ("Set-Cookie", "b=2")]
         spec = {"shape": shape, "status": status, "headers": hdrs, "chunks": chunks,
                 "fail_at": tape.draw(len(chunks) + 1, "app.failat")}
+        if shape == "exc-info-replace":
+            spec["status2"] = tape.choice(["500 Replaced By Application", "503 Busy", "200 OK"], "app.status2")
+            spec["headers2"] = [("X-Replaced", "yes")] + hdrs[:1]
         app.specs[tag] = spec
         method = tape.choice([b"GET", b"POST", b"PUT", b"DELETE"], "req.method")
         if case is not None and "path" in case:
@@ -448,7 +465,16 @@ def _check(world: World, app: WSGIApp, reqs: List[Dict[str, Any]], script: Scrip
             if status == want_status and complete and want_status != 500:
                 bad("error-500", f"{tag}: application failed after start_response but the client received a "
                     f"complete {status}", **key)
+            elif status != 500:
+                # PEP 3333: start_response only stores the status and headers, they are transmitted with the first
+                # chunk; an application that fails before producing one has had nothing sent on its behalf
+                bad("error-500", f"{tag}: application failed after start_response and before its first chunk; nothing "
+                    f"may have been transmitted on its behalf, yet the client received {status} instead of 500 "
+                    f"(shape {shape})", **key)
             continue
+        if shape == "exc-info-replace":
+            want_status = int(spec["status2"].split(" ", 1)[0])
+            spec = dict(spec, status=spec["status2"], headers=spec["headers2"])
         if status != want_status:
             bad("status", f"{tag}: client received {status}, application said {spec['status']!r} (shape {shape})", **key)
             continue
